@@ -43,6 +43,11 @@ EXACT_PRESERVING = {'mpf_neg', 'mpf_abs', 'mpf_shift', 'mpf_pos', 'mpc_neg', 'mp
 # exact integer-part operation (its internal mpf_pos to `mag` bits IS the
 # operation, not a rounding of the result)
 EXACT_INTEGER_PART = {'mpf_round_int'}
+# helper -> (index of the precision argument, where the bound is verified)
+GUARD_BOUNDED = {
+    'exact_nthroot': (2, 'C13 rule E-X1: returns None unless c**n == man, after `if k > prec: return None` with '
+                         'k = ceil(bc/n) >= bit length of c'),
+}
 SMALL_CLOSED = {'mpf_add', 'mpf_sub', 'mpf_neg', 'mpf_abs', 'mpf_pos'}
 PREC_NAMES = ('prec', 'wp')
 
@@ -630,6 +635,12 @@ class KernelAnalysis(FlowAnalysis):
             if name == 'from_rational':
                 single = True
             return MPF(self.rounded(pv, self.ev_mode(re_, w), single))
+        if name in GUARD_BOUNDED:
+            # exact value whose bit length is bounded by a precision argument through a guard inside the
+            # helper (verified structurally by the rule named in the table): as good as rounded to it, in any mode
+            idx = GUARD_BOUNDED[name][0]
+            if len(args) > idx:
+                return MPF(self.rounded(self.ev(args[idx], w), 'v'))
         fs = self.eng.resolve(name)
         if not fs:
             # a function nested in the analysed function (or an enclosing one)
